@@ -10,5 +10,6 @@ CONSTANTS Bug = "none"  MaxLen = 3
  OneShots = {"easy_buffer_encode", "stream_buffer_encode", "raw_buffer_encode", "block_buffer_encode",
    "stream_buffer_decode", "raw_buffer_decode"}
  OpNames = {"StrToFilters", "PropsDecode", "BlockHeaderDecode", "FilterFlagsDecode", "FiltersFree", "FiltersCopy", "StrFromFilters", "StrListFilters", "FreeStr"}
+ SameKind = FALSE
 ACTION_CONSTRAINT Emit
 CHECK_DEADLOCK FALSE
